@@ -113,6 +113,19 @@ func (env *Env) eval(e Expr) (CVal, error) {
 				if f, ok := obj.(*types.Func); ok {
 					return CVal{Term{strconv.Itoa(fc.e.funcTag(env.pkg + "." + f.Name())), SInt}, f.Type()}, nil
 				}
+				if v, ok := obj.(*types.Var); ok {
+					if sp := fc.e.ssaPkgs[env.pkg]; sp != nil {
+						if g, ok := sp.Members[x.Name].(*ssa.Global); ok {
+							if fc.isStable(g) {
+								return CVal{fc.globalVal(g), v.Type()}, nil
+							}
+							ref := fc.globalRef(g)
+							srt := fc.e.sortOf(v.Type())
+							a := fc.heapGet(env.state(), derefArrName(v.Type()), arr(SInt, srt))
+							return CVal{Term{sel(a.S, ref.S), srt}, v.Type()}, nil
+						}
+					}
+				}
 			}
 		}
 		// zero-ary spec function / constant
@@ -561,12 +574,40 @@ func (env *Env) call(x *ECall) (CVal, error) {
 		if id, ok := x.Args[0].(*EIdent); ok {
 			return CVal{Term{strconv.Itoa(fc.e.funcTag(env.pkg + "." + id.Name)), SInt}, nil}, nil
 		}
-	case "typeof": // typeof(x, T)
-		args, err := evalArgs()
+	case "typeis": // typeis(x, "T"): interface value x has dynamic type T
+		if len(x.Args) != 2 {
+			return CVal{}, fmt.Errorf("typeis(x, \"T\")")
+		}
+		v, err := env.eval(x.Args[0])
 		if err != nil {
 			return CVal{}, err
 		}
-		_ = args
+		lit, ok := x.Args[1].(*ELit)
+		if !ok || v.T.Sort != SAny {
+			return CVal{}, fmt.Errorf("typeis(x, \"T\") needs an interface value and a type name")
+		}
+		gt, _, err := fc.e.resolveType(lit.Val, env.pkg)
+		if err != nil || gt == nil {
+			return CVal{}, fmt.Errorf("typeis: %v", err)
+		}
+		return CVal{fc.e.hasType(v.T, gt), nil}, nil
+	case "unbox": // unbox(x, "T")
+		if len(x.Args) != 2 {
+			return CVal{}, fmt.Errorf("unbox(x, \"T\")")
+		}
+		v, err := env.eval(x.Args[0])
+		if err != nil {
+			return CVal{}, err
+		}
+		lit, ok := x.Args[1].(*ELit)
+		if !ok || v.T.Sort != SAny {
+			return CVal{}, fmt.Errorf("unbox(x, \"T\") needs an interface value and a type name")
+		}
+		gt, _, err := fc.e.resolveType(lit.Val, env.pkg)
+		if err != nil || gt == nil {
+			return CVal{}, fmt.Errorf("unbox: %v", err)
+		}
+		return CVal{fc.e.unbox(v.T, gt), gt}, nil
 	case "smt": // smt("raw term", Sort)
 	}
 	if sf, ok := fc.e.specs.Spec[x.Fn]; ok {
